@@ -26,4 +26,9 @@ theorem g_intersect_exact (a b : GC) (ha : a.wfG = true) (hb : b.wfG = true) :
 example : ∃ a b, parseConstraint "!=a, !=b || c" = .ok a ∧ parseConstraint "b || !=c,!=a" = .ok b ∧
     a.wfG = true ∧ b.wfG = true := ⟨_, _, rfl, rfl, by decide, by decide⟩
 
+/-- **Union is defined and exact** (single-valued variant). -/
+theorem g_union_exact (a b : GC) (ha : a.wfG = true) (hb : b.wfG = true) :
+    ∃ r, a.unionWith b = .ok r ∧ r.wfG = true ∧ ∀ v, r.den v = (a.den v || b.den v) :=
+  GC.unionWith_G a b ha hb
+
 end Poetry.C16
